@@ -178,6 +178,7 @@ def s_c05(rng, nval):
 STRATA = [(s_cse_variants, 5), (s_bundle_cse_variants, 3), (s_folded_consumers, 5), (s_fanout, 2),
           (from_other(C01.s_dag_distinct, "C01"), 4), (from_other(C01.s_dag_same, "C01"), 1),
           (from_other(C01.s_logic_chain, "C01"), 2), (from_other(C01.s_sel, "C01"), 2),
+          (from_other(C01.s_sel_same_typed, "C01"), 2), (from_other(C01.s_two_producers, "C01"), 2),
           (from_other(C01.s_wire_merge, "C01"), 1), (from_other(C01.s_const_heavy, "C01"), 2),
           (from_other(C02.s_chain, "C02"), 2), (from_other(C02.s_filter, "C02"), 1), (from_other(C02.s_arith, "C02"), 1),
           (from_other(C06.s_noninline, "C06"), 1), (from_other(C06.s_shared_cmp, "C06"), 1),
